@@ -10,7 +10,8 @@ ATOMS_FULL = ["a", "b", "0", "-", " ", "_",
               "[^\\d]", "[^\\-a]", "[^\\]]", "[\\^a]", "[^\\w]", "[^b^]", "[a^]",
               "[\\d.]", "[\\w+]", "[.\\d]", "\\\\d", "[\\s ]", "[\\\\d]", "[^^a]", "[^a^]",
               "[-a]", "[^-a]", "[^-a-c]", "[^a-]", "[^\\s]", "[^\\n]", "[\\n]",
-              "[[]", "[[a]", "[a[]", "[^[]", "[]a]", "[]]", "[^]a]", "[\\[a]", "[^\\t]"]
+              "[[]", "[[a]", "[a[]", "[^[]", "[]a]", "[]]", "[^]a]", "[\\[a]", "[^\\t]",
+              "[\\|]", "[^\\|]", "[\\|a]", "[a|b]", "[^]]", "[^]-a]", "]"]
 ATOMS_SMALL = ["a", ".", "[ab]", "\\d", "\\+", "[^a]"]
 QUANTS = ["", "*", "+", "?", "{0}", "{1}", "{2}", "{0,1}", "{1,2}", "{2,2}", "{0,0}", "{1,1}", "{2,3}"]
 QUANTS_SMALL = ["", "*", "+", "?", "{2}", "{1,2}", "{0,1}"]
@@ -96,6 +97,15 @@ def nested_groups():
                 yield n
                 yield ("q", n, "+")
                 yield ("cat", n, ("atom", "0"))
+
+
+def stray_then_set():
+    """a literal ] outside any set (or an escaped one, or a complete set) followed by each set atom: the bookkeeping
+    of bracket depth must not leak from one part of the pattern into the next"""
+    for head in ("]", "a]", "\\]", "[a]]", "[a]", "a\\["):
+        for x in SET_ATOMS:
+            yield ("cat", ("atom", head), ("atom", x))
+            yield ("cat", ("atom", head), ("q", ("atom", x), "+"))
 
 
 def level3():
